@@ -271,6 +271,7 @@ class ClassInfo:
     fields: Dict[str, FieldSpec]
     methods: Dict[str, str]  # dunder/method name -> function qualname in world.functions, or 'builtin:object.__ne__'
     bases: List[str] = field(default_factory=list)
+    properties: Dict[str, str] = field(default_factory=dict)  # property / cached_property name -> getter qualname (evaluated on every read)
 
 
 @dataclass
@@ -667,6 +668,8 @@ class Interp:
                         c = dyn_range_constraint(ctx, ctx.memo[key])
                         ctx.assume(c)
                     return ctx.memo[key]
+                if name in ci.properties:
+                    return self.call_function(ctx, ci.properties[name], [v], {})
                 if name in ci.methods:
                     return VFunc(ci.methods[name], bound=v)
                 raise PyRaise("AttributeError", [VStr(smt.sstr(f"'{v.cls}' object has no attribute '{name}'"))])
@@ -1104,8 +1107,9 @@ class Interp:
     def exec_function(self, ctx: Ctx, fi: FunctionInfo, args: List[V], kwargs: Dict[str, V]) -> V:
         node = fi.node
         env: Dict[str, V] = dict(fi.closure)
-        if getattr(node, "decorator_list", None):
-            raise Unsupported("decorated function: " + ", ".join(ast.unparse(d) for d in node.decorator_list))
+        decos = [ast.unparse(d) for d in getattr(node, "decorator_list", None) or []]
+        if any(d.split(".")[-1] not in ("property", "cached_property", "staticmethod") for d in decos):
+            raise Unsupported("decorated function: " + ", ".join(decos))
         a = node.args
         if a.vararg or a.kwarg or a.kwonlyargs or a.posonlyargs:
             raise Unsupported("complex signature")
